@@ -280,7 +280,12 @@ JudgeVerify(e) ==
         entry(kind, got) == IF got = "panic" THEN <<>>      \* reported once as "panic"
                             ELSE IF exp THEN CmpVal(kind, "ok", got)
                             ELSE IF got \in {"err", "na"} THEN <<>> ELSE <<Verdict(kind, "err", got)>>
+        (* recombinations enumerated from the symbolic model (GenSym.tla) carry its verdict: the   *)
+        (* symbolic rendering of section 6.3 and the byte-level reference must agree on them        *)
+        sym == IF "meta" \in DOMAIN e /\ "sym_accept" \in DOMAIN e.meta
+               THEN CmpVal("symbolic_model_vs_reference", e.meta.sym_accept, exp) ELSE <<>>
     IN  (IF anyPanic THEN <<Verdict("panic", want, e.panic)>> ELSE <<>>)
+        \o sym
         \o (IF e.res = "panic" THEN <<>> ELSE CmpVal("verify_outcome", want, e.res))
         \o entry("verify_vk_sig", e.vk_sig)
         \o entry("verify_vk_ref", e.vk_ref)
